@@ -3,7 +3,6 @@ CONSTANTS
   Items = {"x1", "x2", "x3"}
   MaxLen = 5
   MaxSub = 3
-  UseDesign = TRUE
 INVARIANT ClaimsValid
 PROPERTY PrefixStable
 PROPERTY StepLaws
